@@ -63,7 +63,7 @@ ASSUMPTIONS = [
 ]
 FLOORS = {
     'quick': {
-        'handshakes': 800, 'pairs_same_both_returned': 60, 'pairs_equivalent_both_returned': 8,
+        'handshakes': 800, 'pairs_same_both_returned': 30, 'pairs_equivalent_both_returned': 8,
         'pairs_diff_both_autherror': 250, 'onebit_short_pairs': 120, 'prefix_pairs': 20,
         'long_key_pairs': 20, 'wire_verified_handshakes': 300, 'usable_roundtrips': 150,
         'hostile_client_cases': 200, 'hostile_listener_cases': 200,
